@@ -482,6 +482,7 @@ class PathEnum:
         self.fn = fn
         self.bind = bind or {}
         self.out: List[Path] = []
+        self._loops: List[List[Path]] = []
 
     def run(self) -> List[Path]:
         p = Path()
@@ -517,8 +518,13 @@ class PathEnum:
             self.finish(p, "raise", subst(st.exc, p.env), st.lineno)
             return []
         if isinstance(st, (ast.Break, ast.Continue)):
+            p.effects.append(("loopexit", type(st).__name__.lower(), st.lineno, p.in_loop))
             p.end = ("loopexit", None, st.lineno)
-            return [p] if False else self._loop_exit(p)
+            if self._loops:
+                self._loops[-1].append(p)
+            else:
+                self.out.append(p)
+            return []
         if isinstance(st, ast.Assign):
             val = subst(st.value, p.env)
             for tgt in st.targets:
@@ -570,7 +576,9 @@ class PathEnum:
             body_p.in_loop += 1
             self.assign(st.target, opaque("elem", it), body_p, st)
             body_p.effects.append(("loop", it, st.lineno, p.in_loop))
+            self._loops.append([])
             ends = self.block(st.body, [body_p])
+            ends = ends + self._loops.pop()
             return self._after_loop(p, ends, st)
         if isinstance(st, ast.While):
             body_p = p.clone()
@@ -581,7 +589,9 @@ class PathEnum:
             c = subst(st.test, body_p.env)
             body_p.conds.append((c, True, st.lineno))
             body_p.effects.append(("loop", c, st.lineno, p.in_loop))
+            self._loops.append([])
             ends = self.block(st.body, [body_p])
+            ends = ends + self._loops.pop()
             return self._after_loop(p, ends, st)
         if isinstance(st, (ast.With, ast.AsyncWith)):
             for item in st.items:
@@ -621,12 +631,6 @@ class PathEnum:
         if isinstance(st, ast.Match):
             raise AnalysisError(f"match statement at line {st.lineno} not modelled")
         raise AnalysisError(f"statement {type(st).__name__} at line {st.lineno} not modelled")
-
-    def _loop_exit(self, p: Path) -> List[Path]:
-        p.effects.append(("loopexit", None, p.end[2], p.in_loop))
-        p.end = None
-        p._exited = True
-        return [p]
 
     def _after_loop(self, p: Path, ends: List[Path], st) -> List[Path]:
         """Continue after the loop: zero iterations (p) joined with body results; names bound in the body become opaque."""
